@@ -249,7 +249,7 @@ def bounded(tier, seed):
     res = native("basis.py", {"seed": seed, "n": 3 if tier == "quick" else 20}, timeout=3000)
     if not res.get("ok"):
         raise RuntimeError(f"native driver failed: {res}")
-    return [{"name": "component_order_across_the_package", "bound": "random curvilinear grids: from_expression vs access by name vs operators, dot/outer on both backends, conversion of vector fields to Cartesian grids (radial and axial test fields)",
+    return [{"name": "component_order_across_the_package", "bound": "vec_to_cart of polar / spherical / cylindrical coordinates for one point and arrays of points (position vector); vector image data of a radial field on polar grids; random curvilinear grids: from_expression vs access by name vs operators, dot/outer on both backends, conversion of vector fields to Cartesian grids (radial and axial test fields)",
              "cases": res["cases"], "failures": res["failures"]}]
 
 
